@@ -19,8 +19,12 @@ type c11 struct{}
 
 func init() { fw.Register(c11{}) }
 
-func (c11) ID() string    { return "C11" }
-func (c11) Level() string { return "exploration" }
+func (c11) ID() string { return "C11" }
+
+// The instrumented callbacks write a plain field of the cache object on purpose: two of them racing means
+// two transactions were inside one cache at the same time.
+func (c11) HarnessRacesAreSignals() bool { return true }
+func (c11) Level() string                { return "exploration" }
 func (c11) Rule() string {
 	return "unit = one executed schedule: up to three transactions (each a program of 1..4 read-only or writing accesses to the cache names A/B with callbacks that may fail, constructors that may fail, optional second goroutine inside the transaction, then Commit(false|true)) run concurrently on one cache.Manager with size limit -1, 0 or small, with Release calls at random moments; the interleaving is steered by seeded delays at the verif pause points inside Transaction.With / Commit and inside the callbacks, and by writers parked inside their callback while readers are issued. Online monitor in the instrumented callbacks (objects are harness Cachables with serial numbers): (1) no callback of another transaction on an object between a transaction's first writing entry and its call of Commit, and no writer entering while another transaction's reader is inside; (2) an object that a failed transaction wrote or failed on is never handed to a callback again; (3) a read-only access issued while a writer is parked inside its callback starts its callback on a different object instead of blocking; (4) after everyone finished, a fresh writing transaction on every name completes; plus the race detector over the callbacks' plain field writes. Non-trivial = at least two transactions touched the same name, one of them writing; distinct by (programs, observed entry order)."
 }
